@@ -46,6 +46,9 @@ inductive Ret where
 
 inductive Frame where
   | resp (rid sid : Nat)            -- response accepting the subscribe call: result = subscription id
+  | respDead (rid sid : Nat)        -- the same text, written by an accept() that then FAILS because the
+                                    -- subscribe call had been cancelled (nobody takes the response any
+                                    -- more): it reaches the wire, but no subscription comes into being
   | err (rid : Nat) (code : Int)    -- error response to a subscribe call (-32006, reject code, -32603)
   | unsub (rid : Nat) (b : Bool)    -- response to an unsubscribe call
   | data (meth sid p : Nat)         -- notification produced by `SubscriptionSink::send`
@@ -72,6 +75,8 @@ structure Sub where
   taskDone : Bool := false      -- the task spawned by the subscribe callback has finished
   closeSent : Bool := false     -- ghost: a closing notification was enqueued
   produced : List Nat := []     -- ghost: payloads of the successful sends, in order
+  callDead : Bool := false      -- the future of the subscribe call was dropped (cancelled / timed out by a
+                                -- middleware) while the pending sink lives on: its per-message task is gone
   deriving DecidableEq, Repr
 
 structure Conn where
@@ -92,6 +97,7 @@ structure State where
 
 inductive Op where
   | subscribe (c m rid sid : Nat)   -- `sid` = what the id provider hands out for this call (external)
+  | cancelCall (k : Nat)            -- the subscribe call's future is dropped while the sink is still pending
   | accept (k : Nat)
   | reject (k : Nat) (code : Int)
   | dropPending (k : Nat)
@@ -206,9 +212,33 @@ def doAccept (st : State) (k : Nat) : State × Out :=
     else if !cn.isOpen then
       (put st k { s with phase := .acceptFailed, taskDone := true } cn.release, .err)
     else if !cn.hasRoom then (st, .blocked)
+    else if s.callDead then
+      -- subscription.rs accept(): the response is queued (`inner.send` succeeds), handing it to the
+      -- cancelled call fails (`subscribe.send` → Err): accept returns Err, the pending sink is dropped,
+      -- its permit released — no table entry, no sink
+      (put st k { s with phase := .acceptFailed, taskDone := true }
+        (cn.push (.respDead s.reqId s.subId)).release, .err)
     else
       (put { st with subs := st.subs.map (displace s.conn s.meth s.subId) } k
         { s with phase := .accepted, clones := 1, inTable := true } (cn.push (.resp s.reqId s.subId)), .ok)
+
+/-- does refusing a pending subscription put an error response on the queue?  `reject` writes it
+itself; for a sink dropped without decision the per-message task of the call does — unless the call
+was cancelled -/
+def refuseWrites (s : Sub) (cn : Conn) (ph : Phase) : Bool :=
+  cn.isOpen && !(ph == .dropped && s.callDead)
+
+/-- The future of the subscribe call is dropped (per-call timeout of a middleware, cancelled
+in-process call) while the pending sink is still alive somewhere (`register_subscription_raw`
+handlers that spawned their own task; sinks handed to other tasks). -/
+def doCancelCall (st : State) (k : Nat) : State × Out :=
+  match lookup st k with
+  | none => (st, .bad)
+  | some (s, cn) =>
+    if s.phase != .pending || s.callDead then (st, .bad)
+    -- with the call gone the `accepted` signal can never arrive: the task spawned by the subscribe
+    -- callback ends and cancels the handler future with it (rpc_module.rs:836-840)
+    else (put st k { s with callDead := true, taskDone := true } cn, .done)
 
 /-- `reject` and "dropped without accept/reject" differ only in the error code and final phase -/
 def doRefuse (st : State) (k : Nat) (code : Int) (ph : Phase) : State × Out :=
@@ -216,10 +246,10 @@ def doRefuse (st : State) (k : Nat) (code : Int) (ph : Phase) : State × Out :=
   | none => (st, .bad)
   | some (s, cn) =>
     if s.phase != .pending then (st, .bad)
-    else if cn.isOpen && !cn.hasRoom then (st, .blocked)
+    else if refuseWrites s cn ph && !cn.hasRoom then (st, .blocked)
     else
       (put st k { s with phase := ph, taskDone := true }
-        (if cn.isOpen then (cn.push (.err s.reqId code)).release else cn.release), .done)
+        (if refuseWrites s cn ph then (cn.push (.err s.reqId code)).release else cn.release), .done)
 
 def doSend (st : State) (k p : Nat) : State × Out :=
   match lookup st k with
@@ -345,7 +375,7 @@ def doStop (st : State) : State × Out :=
   ({ st with conns := st.conns.map (fun cn => { cn with stopping := true }) }, .done)
 
 def hasPendingCall (st : State) (c : Nat) : Bool :=
-  st.subs.any (fun s => s.conn == c && s.phase == .pending)
+  st.subs.any (fun s => s.conn == c && s.phase == .pending && !s.callDead)
 
 def doConnFinish (st : State) (c : Nat) : State × Out :=
   match st.conns[c]? with
@@ -366,6 +396,7 @@ def doWriter (st : State) (c : Nat) : State × Out :=
 
 def step (st : State) : Op → State × Out
   | .subscribe c m rid sid => doSubscribe st c m rid sid
+  | .cancelCall k => doCancelCall st k
   | .accept k => doAccept st k
   | .reject k code => doRefuse st k code .rejected
   | .dropPending k => doRefuse st k internalCode .dropped
